@@ -534,6 +534,73 @@ def r07_2(F, R, box):
         cl = [n for n in H.walk(rm["body"]) if H.is_call(n, "remap_class")]
         ot = [n for n in H.walk(rm["body"]) if H.is_call(n, "remap_other")]
         R.inst("R07.2", "class-and-other-dispatch", len(cl) == 1 and len(ot) == 1, sp=rm["sp"])
+        # every entry of the input jar gives an entry of the output (seed C07-7: signature files skipped with `continue`)
+        DROP = ("filter", "filter_map", "skip", "skip_while", "take", "take_while", "step_by", "nth", "last", "find", "find_map", "flat_map",
+                "retain", "truncate", "remove", "shift_remove", "swap_remove", "pop", "drain", "clear", "split_off")
+        loops = [n for n in H.walk(rm["body"]) if n.get("k") == "for"]
+        bad = ["%s(..)" % n["name"] for n in H.walk(rm["body"]) if n.get("k") == "mcall" and n["name"] in DROP]
+        for lp in loops:
+            stack = [(lp["body"], False)]
+            while stack:
+                x, inner = stack.pop()
+                if not isinstance(x, dict) or x.get("k") == "closure":
+                    continue
+                if x.get("k") in ("continue", "break") and not inner:
+                    bad.append("`%s` at %s" % (x["k"], x.get("sp")))
+                for ch in H.children(x):
+                    stack.append((ch, inner or x.get("k") in ("for", "loop", "while")))
+            for n in H.walk(lp["body"]):
+                if n.get("k") == "mcall" and n["name"] == "insert" and len(n.get("args", [])) == 2:
+                    for kind, cn, pol in H.path_conditions(lp["body"], n):
+                        bad.append("entry stored only under `%s`" % (H.render(cn)[:60] if kind != "arm" else "a match arm"))
+        R.inst("R07.2", "every-entry-of-the-jar-is-kept", not bad, sp=rm["sp"], got=bad,
+               expect="one output entry per input entry: no filter/skip/.. on the entry keys, no continue/break, unconditional insert",
+               detail="non-class entries are unchanged and every class entry is stored under its remapped name: nothing is dropped")
+    # an entry is a class exactly when its name ends in `.class` (seed C07-8: module-info / package-info handed through as plain data)
+    ze = [b for b in box.bodies if b.get("name") == "to_jar_entry_enum" and "zip_impls" in b["key"]]
+    if R.anchor("R07.2", "fn ZipFile::to_jar_entry_enum", len(ze) == 1):
+        zb = ze[0]
+
+        def atoms(cn, pol, out):
+            c = H.peel(cn, refs=False)
+            if c.get("k") == "block" and not c.get("stmts") and "tail" in c:
+                return atoms(c["tail"], pol, out)
+            if c.get("k") == "un" and c.get("op") == "!":
+                return atoms(c["e"], not pol, out)
+            if c.get("k") == "bin" and ((c.get("op") == "&&" and pol) or (c.get("op") == "||" and not pol)):
+                atoms(c["l"], pol, out)
+                atoms(c["r"], pol, out)
+                return
+            if c.get("k") == "mcall" and c["name"] == "is_dir" and not c["args"]:
+                out.add(("dir", pol))
+            elif c.get("k") == "mcall" and c["name"] == "ends_with" and len(c["args"]) == 1 and H.const_value(c["args"][0]) == ".class" \
+                    and H.peel(c["recv"]).get("k") == "mcall" and H.peel(c["recv"])["name"] == "name":
+                out.add(("class-suffix", pol))
+            else:
+                out.add(("other:" + H.render(c)[:70], pol))
+        want = {"Class": {("dir", False), ("class-suffix", True)}, "Other": {("dir", False), ("class-suffix", False)}, "Dir": {("dir", True)}}
+        found = {}
+        for n in H.walk(zb["body"]):
+            v = None
+            if n.get("k") in ("call", "path", "struct"):
+                c = H.ctor_of(n) if n.get("k") == "call" else None
+                if c and "JarEntryEnum" in (c[0] or ""):
+                    v = c[1]
+                elif n.get("k") == "path" and (n["res"].get("adt") or "").endswith("JarEntryEnum") and n["res"].get("variant") == "Dir":
+                    v = "Dir"
+            if v in want:
+                at = set()
+                for kind, cn, pol in H.path_conditions(zb["body"], n):
+                    if kind in ("if", "after-exit"):
+                        atoms(cn, bool(pol), at)
+                    else:
+                        at.add(("other:" + kind, True))
+                found.setdefault(v, []).append(at)
+        for v in ("Class", "Other"):
+            got = found.get(v, [])
+            R.inst("R07.2", "zip-entry-kind:%s" % v, len(got) == 1 and got[0] == want[v], sp=zb["sp"],
+                   expect=sorted(want[v]), got=[sorted(g) for g in got],
+                   detail="whether a zip entry is parsed and remapped as a class depends only on the `.class` suffix of its name")
     ro = box.fn("remap_other")
     if R.anchor("R07.2", "fn remap_other", ro):
         t = _tail(ro["body"])
@@ -557,7 +624,7 @@ def r07_2(F, R, box):
                 R.inst("R07.2", "ClassRepr::read-table:%s" % b["impl_ty"].replace("dukebox::storage::lazy_class_file::", ""),
                        set(tab.get("Parsed") or []) <= {"Ok", "clone"} and "Ok" in (tab.get("Parsed") or []) and "read_class" in (tab.get("Vec") or []), sp=b["sp"], got=tab,
                        expect="Parsed -> the stored class, Vec -> duke::read_class(bytes)")
-    R.floor("R07.2", 6)
+    R.floor("R07.2", 9)
 
 
 def _tail(n):
